@@ -135,6 +135,9 @@ def map_spec(draw, kinds=("cp", "herm", "gen", "gen"), imin=1, omin=1, dmax=DMAX
         "cplx": draw(st.booleans()),
         "src": draw(st.sampled_from(["int", "prng"])),
         "seed": draw(gen.SEED),
+        # mixed dtypes inside one operator list: the first pair is real-valued with a real dtype, the later ones complex
+        # (added after seeded change C04-t1, which decides a "real fast path" from the first operator alone, was missed)
+        "real_first": draw(st.integers(0, 3)) == 0,
     }
 
 
@@ -155,9 +158,10 @@ def build_pairs(m):
     g = gen.rng(m["seed"])
     out = []
     for k in range(m["r"]):
-        a = _entries(g, m["o1"], m["i1"], m["src"], m["cplx"])
+        cplx = m["cplx"] and not (k == 0 and m.get("real_first") and m["r"] >= 2)
+        a = _entries(g, m["o1"], m["i1"], m["src"], cplx)
         if m["kind"] == "gen":
-            b = _entries(g, m["o2"], m["i2"], m["src"], m["cplx"])
+            b = _entries(g, m["o2"], m["i2"], m["src"], cplx)
         else:
             b = m["signs"][k] * a
         out.append([a, b])
